@@ -528,6 +528,16 @@ def value_position_sweeps(eng, tier):
             out.append(("address-family-length", "g", frame(a, data), False if not legal else (fam != 8 or 1 <= n <= 15)))
     for n in (0, 1):
         out.append(("address-family-length", "g", frame(a, bytes(n)), False))
+    # the address forms a library might want to "normalise" (IPv4-mapped / -compatible IPv6, NAT64, 6to4, unspecified, all ones,
+    # loopback, link-local, multicast; 0.0.0.0, broadcast, loopback): each is accepted and is the value its octets say
+    for b in gen.ipv6_special_forms():
+        out.append(("address-special-forms", "g", frame(a, gen.be(2, 2) + b), True))
+        if "ip6" in by:
+            out.append(("address-special-forms", "g", frame(by["ip6"]["code"], b), True))
+    for b in (b"\0\0\0\0", b"\xff\xff\xff\xff", b"\x7f\0\0\1", b"\xe0\0\0\1", b"\xa9\xfe\1\2", b"\0\0\0\1"):
+        out.append(("address-special-forms", "g", frame(a, gen.be(1, 2) + b), True))
+        if "ip4" in by:
+            out.append(("address-special-forms", "g", frame(by["ip4"]["code"], b), True))
     return out
 
 
